@@ -24,7 +24,7 @@ def exc_name(e):
 S_OPS = ['connect /', 'connect /a auth', 'connect unserved', 'connect refused', 'event', 'event+id', 'binary event+id',
          'event unknown', 'ack known', 'ack unknown', 'ack duplicate', 'client disconnect', 'malformed', 'stray binary',
          'emit room', 'emit sid callback', 'emit sid raising-callback', 'enter', 'leave', 'close', 'server disconnect',
-         'session', 'loss e1', 'event on class namespace', 'call']
+         'session', 'loss e1', 'event on class namespace', 'call', 'emit room callback skip']
 
 
 def run_server(asyncio_, plan, classns):
@@ -148,6 +148,9 @@ def run_server(asyncio_, plan, classns):
                 w.send('e0', w.P(packet.EVENT, data=['ev', 2], namespace='/c', id=9))
         elif name == 'call':
             api('call', lambda: w.s.call('q', 1, to=s0 or 'nobody', timeout=1))
+        elif name == 'emit room callback skip':
+            # (callbacks on group emits are unsupported, but both implementations must still do the same thing)
+            api('emit-room-cb', lambda: w.s.emit('q2', 1, room='room', skip_sid=s0, callback=cb(False)))
     w.finish()
     tr.append(('contained', [exc_name(c[1]) for c in w.eio.contained]))
     for e in ('e0', 'e1'):
@@ -185,7 +188,8 @@ def compare(a, b, what, plan):
 # ---- clients ------------------------------------------------------------------------------------------------------------
 C_OPS = ['srv event', 'srv event+id', 'srv binary event+id', 'srv event nobody+id', 'srv ack known', 'srv ack unknown',
          'srv ack duplicate', 'srv disconnect /', 'srv disconnect /a', 'srv connect_error /a', 'emit', 'emit cb',
-         'emit raising-cb', 'emit unconnected', 'send', 'disconnect()', 'loss', 'server close', 'malformed', 'stray binary']
+         'emit raising-cb', 'emit unconnected', 'send', 'disconnect()', 'loss', 'server close', 'malformed', 'stray binary',
+         'srv half binary', 'reconnect']
 
 
 def run_client(asyncio_, plan):
@@ -270,6 +274,15 @@ def run_client(asyncio_, plan):
                 w.recv(f)
         elif name == 'stray binary':
             w.recv(b'stray')
+        elif name == 'srv half binary':
+            fr = worlds.encode_frames(w.P(packet.EVENT, data=['ev', b'one', b'two'], namespace='/a'))
+            w.recv(fr[0])
+            w.recv(fr[1])
+        elif name == 'reconnect':
+            if w.eio.state == 'disconnected':
+                api('connect', lambda: w.c.connect('http://h', namespaces=['/', '/a'], wait=False))
+                for ns in ('/', '/a'):
+                    w.accept(ns)
     w.finish()
     tr.append(('contained', [exc_name(c[1]) for c in w.eio.contained]))
     tr.append(('out', [worlds.pk(p) if not isinstance(p, tuple) else p for p in
@@ -347,7 +360,10 @@ def h_pubsub(t, part):
         t.force([part['first']])
     plan = []
     for k in range(part['n']):
-        plan.append((P_KINDS[t.choice(len(P_KINDS))], c15.ENCODINGS[t.choice(4)], t.choice(4)))
+        if k == 0 or part.get('full'):
+            plan.append((P_KINDS[t.choice(len(P_KINDS))], c15.ENCODINGS[t.choice(4)], t.choice(4)))
+        else:
+            plan.append((P_KINDS[t.choice(len(P_KINDS))], c15.ENCODINGS[1 + t.choice(2)], t.choice(2)))
     with notrace():
         a = run_pubsub(False, plan)
         b = run_pubsub(True, plan)
@@ -480,11 +496,11 @@ def simple_parts(tier):
 
 
 CHECKS = [
-    dict(name='servers', fn=h_server, parts=server_parts, budget={'quick': 80, 'thorough': 1500}),
-    dict(name='clients', fn=h_client, parts=client_parts, budget={'quick': 80, 'thorough': 900}),
+    dict(name='servers', fn=h_server, parts=server_parts, budget={'quick': 180, 'thorough': 1500}),
+    dict(name='clients', fn=h_client, parts=client_parts, budget={'quick': 180, 'thorough': 900}),
     dict(name='pubsub-managers', fn=h_pubsub, parts=[{'n': 2, 'first': f} for f in range(len(P_KINDS))],
-         budget={'quick': 80, 'thorough': 300}),
-    dict(name='simple-clients', fn=h_simple, parts=simple_parts, budget={'quick': 80, 'thorough': 600}),
+         budget={'quick': 180, 'thorough': 300}),
+    dict(name='simple-clients', fn=h_simple, parts=simple_parts, budget={'quick': 180, 'thorough': 600}),
 ]
 
 META = dict(
